@@ -451,6 +451,39 @@ class Builder:
                 return cands[0]
         return None
 
+    # ---------------------------------------------------------- normalisation helpers
+    def resolve_const(self, e, env):
+        """A path naming a `const` of the crate stands for its literal value."""
+        e0 = strip_refs(e)
+        if isinstance(e0, dict) and e0.get("k") == "path" and not (len(e0["segs"]) == 1 and e0["segs"][0] in env and not e0["segs"][0].startswith("__")):
+            name = e0["segs"][-1]
+            cands = [v for k, v in self.facts.consts.items() if k.split("::")[-1] == name]
+            if len(cands) == 1 and cands[0]["e"].get("k") == "lit":
+                return cands[0]["e"]
+        return e
+
+    def as_closure(self, e, env):
+        """A path to a local function used as a function value is replaced by an equivalent closure node
+        (|params| body), so closures and named functions are analysed the same way."""
+        e0 = strip_refs(e)
+        if not (isinstance(e0, dict) and e0.get("k") == "path"):
+            return e
+        if len(e0["segs"]) == 1 and e0["segs"][0] in env and not e0["segs"][0].startswith("__"):
+            return e
+        rf = self._resolve_fn_path(e0, env)
+        key = rf[0] if rf else None
+        if key is None and len(e0["segs"]) >= 2:
+            k2 = "::".join(e0["segs"][-2:])
+            key = k2 if k2 in self.facts.fns else None
+        if key is None or key not in self.facts.fns:
+            return e
+        fn = self.facts.fns[key]
+        if fn.node.get("self") is not None:
+            return e
+        if self._input_name(fn) is not None and len(fn.params) == 1 and F.norm_ty(fn.node["output"]).startswith("PResult"):
+            return e  # a parser, not a plain function value
+        return {"k": "closure", "l": e0.get("l"), "params": [i["pat"] for i in fn.node["inputs"]], "body": fn.body, "move": False, "from_fn": key}
+
     # ---------------------------------------------------------- parser expressions
     def pe(self, e, env):
         k = e["k"]
@@ -496,6 +529,9 @@ class Builder:
         rf = self._resolve_fn_path(e, env)
         if rf:
             return N("ref", e, fn=rf[0], targs=rf[1], extra=[])
+        cst = self.resolve_const(e, env)
+        if cst is not e and cst.get("k") == "lit" and cst.get("t") in ("str", "char"):
+            return N("lit", e, s=cst["v"])
         return N("opaque", e, src=src(e), why="unresolved path")
 
     def _range(self, e):
@@ -584,7 +620,7 @@ class Builder:
             if short == "not":
                 return N("notp", e, p=self.pe(args[0], env))
             if short == "literal":
-                a = args[0]
+                a = self.resolve_const(args[0], env)
                 if a["k"] == "lit" and a["t"] in ("str", "char"):
                     return N("lit", e, s=a["v"])
                 return N("opaque", e, src=src(e))
@@ -625,6 +661,8 @@ class Builder:
 
     def _ctx_arg(self, a, env):
         """label("x") / expected("x") -> (kind, text)"""
+        if a["k"] == "call" and a["f"]["k"] == "path" and len(a["args"]) == 1:
+            a = dict(a, args=[self.resolve_const(a["args"][0], env)])
         if a["k"] == "call" and a["f"]["k"] == "path" and len(a["args"]) == 1 and a["args"][0]["k"] == "lit":
             r = self.resolve_path(a["f"]["segs"], env["__module"])
             name = a["f"]["segs"][-1]
@@ -647,6 +685,10 @@ class Builder:
         m = e["m"]
         recv = e["recv"]
         args = e["args"]
+        if m in ("map", "try_map", "verify") and len(args) == 1:
+            args = [self.as_closure(args[0], env)]
+        if m == "fold" and len(args) == 2:
+            args = [args[0], self.as_closure(args[1], env)]
         if m == "context" and len(args) == 1:
             c = self._ctx_arg(args[0], env)
             p = self.pe(recv, env)
@@ -677,6 +719,8 @@ class Builder:
     def pred(self, a, env):
         """Evaluate the argument of take_while/one_of: ('cs', charset) | ('tok', [variant names]) | None"""
         a = strip_refs(a)
+        a = self.as_closure(a, env)
+        self._pred_env = env
         k = a["k"]
         if k == "lit":
             if a["t"] == "char":
@@ -714,6 +758,21 @@ class Builder:
             body = a["body"]
             if body["k"] == "block" and len(body["stmts"]) == 1 and body["stmts"][0]["k"] == "expr":
                 body = body["stmts"][0]["e"]
+            if body["k"] == "match" and strip_refs(body["scrut"]).get("k") == "path" and strip_refs(body["scrut"])["segs"] == [var]:
+                # exhaustive `match t { Token::A(_) | .. => true, .. => false }`
+                yes, ok_ = [], True
+                for arm in body["arms"]:
+                    bval = strip_refs(arm["body"])
+                    names = self._tok_pat(arm["pat"])
+                    if bval.get("k") == "lit" and bval.get("t") == "bool" and names is not None and arm["guard"] is None:
+                        if bval["v"]:
+                            yes += names
+                    elif bval.get("k") == "lit" and bval.get("t") == "bool" and arm["pat"]["k"] == "wild" and not bval["v"]:
+                        pass
+                    else:
+                        ok_ = False
+                if ok_ and yes:
+                    return ("tok", yes)
             if body["k"] == "macro" and body["name"] == "matches" and "pat" in body:
                 e0 = strip_refs(body["e"])
                 if e0["k"] == "path" and e0["segs"] == [var] and body["guard"] is None:
@@ -773,8 +832,9 @@ class Builder:
             x = self._bool_cs(b["e"], var)
             return cs_compl(x) if x else None
         if k == "mcall":
-            if b["m"] == "contains" and len(b["args"]) == 1 and isvar(b["args"][0]) and b["recv"]["k"] == "lit" and b["recv"]["t"] == "str":
-                return cs_in(b["recv"]["v"])
+            recv_ = self.resolve_const(b["recv"], getattr(self, "_pred_env", {})) if b["m"] == "contains" else b["recv"]
+            if b["m"] == "contains" and len(b["args"]) == 1 and isvar(b["args"][0]) and recv_["k"] == "lit" and recv_["t"] == "str":
+                return cs_in(recv_["v"])
             if isvar(b["recv"]) and not b["args"]:
                 if b["m"] in ("is_alpha", "is_ascii_alphabetic"):
                     return cs_in(ALPHA)
@@ -823,6 +883,41 @@ class Grammar:
         out = [s["p"] for s in fb["steps"]]
         if fb["tail"] is not None:
             out.append(fb["tail"])
+        return out
+
+    def bindings(self, fb):
+        """Variables bound by the parser steps of a function body: name -> IR node that produced the value.
+        Handles `let x = p.parse_next(i)?`, `let (a, b, c) = (p1, p2, p3).parse_next(i)?` (element-wise) and
+        `let (items, _) = repeat_till(..).parse_next(i)?` (the collected list is bound to the repetition itself)."""
+        out = {}
+        for st in fb.get("steps", []):
+            pat, p = st["pat"], st["p"]
+            q = p
+            while q["t"] in ("ctx", "cut"):
+                q = q["p"]
+            while pat["k"] in ("typed", "ref"):
+                pat = pat["pat"]
+            if pat["k"] == "ident":
+                out[pat["name"]] = q
+            elif pat["k"] == "tuple":
+                names = []
+                for e in pat["elems"]:
+                    while e["k"] in ("typed", "ref"):
+                        e = e["pat"]
+                    names.append(e.get("name") if e["k"] == "ident" else None)
+                if q["t"] == "seq":
+                    kept = [i["p"] for i in q["items"] if i["keep"]]
+                    if len(kept) == len(names):
+                        for nme, node in zip(names, kept):
+                            if nme:
+                                n2 = node
+                                while n2["t"] in ("ctx", "cut"):
+                                    n2 = n2["p"]
+                                out[nme] = n2
+                elif q["t"] == "reptill" and len(names) == 2 and names[0]:
+                    out[names[0]] = q
+                elif q["t"] == "map" and q.get("result_map"):
+                    pass
         return out
 
     def strip(self, ir):
